@@ -38,6 +38,9 @@ class SV:
     def __getitem__(self, name):
         return getattr(self, name)
 
+    def __setitem__(self, name, value):
+        setattr(self, name, value)
+
 
 class AV:
     """View of an array object: av[i] -> element (term or SV snapshot), av.f(i) for leaf selects."""
@@ -207,6 +210,49 @@ class TaskCtx:
 
     def loop(self, fn, ordinal, invariant=None, variant=None, unroll=None, havoc_extra=None, mode=None):
         self.eng.loopspecs[(fn, ordinal)] = LoopSpec(invariant, variant, unroll, havoc_extra, mode)
+
+    def loops_of(self, fn):
+        """[(ordinal, info)] for the loops of a real function in source order; info = {kind, calls, names, depth, line}
+        -- lets a pack attach invariants by structure (callee / variable names) instead of by bare ordinal."""
+        tu, f = self.eng.find_function(fn)
+        out = []
+
+        def scan(x, acc):
+            if isinstance(x, dict):
+                k = x.get("kind")
+                if k == "CallExpr":
+                    y = x["inner"][0]
+                    while isinstance(y, dict) and y.get("kind") in ("ImplicitCastExpr", "ParenExpr"):
+                        y = y["inner"][0]
+                    if isinstance(y, dict) and y.get("kind") == "DeclRefExpr":
+                        acc["calls"].add(y["referencedDecl"]["name"])
+                if k == "DeclRefExpr":
+                    acc["names"].add(x["referencedDecl"].get("name"))
+                if k == "VarDecl":
+                    acc["names"].add(x.get("name"))
+                for c in x.get("inner", ()):
+                    scan(c, acc)
+
+        def walk(x, depth):
+            if isinstance(x, dict):
+                if x.get("kind") in ("ForStmt", "WhileStmt", "DoStmt"):
+                    acc = {"kind": x["kind"], "calls": set(), "names": set(), "depth": depth, "line": x.get("_line")}
+                    scan(x, acc)
+                    out.append((len(out), acc))
+                    depth += 1
+                for c in x.get("inner", ()):
+                    walk(c, depth)
+        walk(f, 0)
+        return out
+
+    def loop_where(self, fn, pred, **kw):
+        """attach a loop spec to every loop of `fn` whose info satisfies pred(info); returns the ordinals"""
+        hits = [o for (o, info) in self.loops_of(fn) if pred(info)]
+        if not hits:
+            raise Unsupported("no loop of %s matches the structural anchor" % fn)
+        for o in hits:
+            self.loop(fn, o, **kw)
+        return hits
 
     def contract(self, fn, apply):
         self.eng.contracts[fn] = Contract(fn, apply)
